@@ -693,7 +693,7 @@ class Ref:
             return body()
         self._trial_exit(start, True)
         lut = {}
-        for a, x in p["overloads"]:
+        for a, x in list(p["overloads"]) + list(p["late_overloads"]):
             lut[a] = x
         if k in lut:
             return self.ev(lut[k], o)
